@@ -41,7 +41,7 @@ struct EncScenario : Scenario {
         p.ops.push_back({"ELEM", {3}, {rhex(r, 32), rhex(r, 32), strf("zraw:%d:%d", r.range(1, 10), r.range(1, 3))}});
         p.ops.push_back({"ELEM", {7}, {rhex(r, 32)}});     // identity by flag, coordinates left over
         p.ops.push_back({"ELEM", {5}, {rhex(r, 32)}});     // element whose x is small enough for x+q to fit (for plusq)
-        for (int wi = 0; wi < (g == 1 ? 2 : 4); wi++) p.ops.push_back({"ELEM", {6, wi}, {}});    // subgroup elements with one coordinate sharing its top 32-bit word with q: boundary of every word-wise "coordinate < q" comparison
+        for (int wi = 0; wi < (g == 1 ? 3 : 4); wi++) p.ops.push_back({"ELEM", {6, wi}, {}});    // subgroup elements with one coordinate sharing its top 32-bit word with q: boundary of every word-wise "coordinate < q" comparison
         size_t npool = p.ops.size();
         for (size_t e = 0; e < npool; e++) p.ops.push_back({"RT", {(int64_t) e}, {}});
         if (enumerate) {
@@ -156,6 +156,14 @@ struct EncScenario : Scenario {
                     // [k]G with a coordinate whose top 32-bit word is q's (0x1a0111ea): found by tools/witness_search.cpp (about 2^-31 per
                     // coordinate), verified here through the library, not trusted. {k, byte offset of that coordinate in x||y (c1 before c0)}
                     static const struct { uint64_t k; size_t off; } W1[] = {{51858613ull, 0}, {2397157388ull, 48}}, W2[] = {{2342951145ull, 0}, {2661914046ull, 144}, {2860139547ull, 96}, {1875757969ull, 48}};
+                    if (g == 1 && op.arg(1) == 2) {
+                        // [k]G whose y and -y agree in the top 32-bit word of their STORED form (the ordering that picks the compressed form's sign flag decides
+                        // on lower words there); same provenance, verified on the object's own bytes
+                        uint64_t kv3 = 16978836724ull; std::vector<uint8_t> kk(32, 0); memcpy(kk.data(), &kv3, 8); c.mul_gen(a, kk);
+                        Buf neg(c.asz()); R.jv_g1affine_negate(1, neg, a); bool tie = memcmp(a.p + 48 + 44, neg.p + 48 + 44, 4) == 0;
+                        env.count(tie ? "probe:element_whose_y_and_minus_y_share_the_top_stored_word" : "probe:boundary_element_constant_stale");
+                        env.logbytes("ELEM", c.canon(a).data(), 97); c.pool.push_back(std::move(a)); continue;
+                    }
                     size_t wi = (size_t) op.arg(1) % (g == 1 ? 2 : 4); uint64_t kv = g == 1 ? W1[wi].k : W2[wi].k; size_t off = g == 1 ? W1[wi].off : W2[wi].off;
                     std::vector<uint8_t> kk(32, 0); memcpy(kk.data(), &kv, 8); c.mul_gen(a, kk);
                     MPoint m = mpoint_of_affine(R, g, a); bool hit = !m.inf && m.xy.size() >= off + 4 && m.xy[off] == 0x1a && m.xy[off + 1] == 0x01 && m.xy[off + 2] == 0x11 && m.xy[off + 3] == 0xea;
